@@ -11,6 +11,9 @@ import itertools
 MASK = 0xFFFF
 
 
+NARROW = {"unsigned char": 8, "signed char": 8, "char": 8, "_Bool": 1}
+
+
 class NotBitwise(Exception):
     pass
 
@@ -19,6 +22,16 @@ def leaves_and_eval(expr, env, leaf_key):
     """Return (set of leaf keys, evaluator(assign)->int).  `env` maps variable paths to
     already-built (leaves, evaluator) pairs (symbolic substitution of earlier assignments on
     the path); leaf_key(node) names a leaf (or returns None if the node is not a leaf)."""
+    # a narrowing integral conversion truncates: (uint8_t)x keeps only the low 8 bit positions
+    w = expr
+    while w.k in ("ParenExpr",):
+        w = w.child(0)
+    if w.k in ("ImplicitCastExpr", "CStyleCastExpr") and w.get("ck") == "IntegralCast" and "cv" not in w:
+        bits = NARROW.get((w.get("ct") or "").replace("const ", "").replace("volatile ", "").strip())
+        if bits:
+            la, fa = leaves_and_eval(w.child(0), env, leaf_key)
+            m = (1 << bits) - 1
+            return la, (lambda a, fa=fa, m=m: fa(a) & m)
     n = expr.strip_all_casts()
     k = n.k
     if "cv" in n and k not in ("DeclRefExpr",):
